@@ -25,6 +25,7 @@ type specCtx struct {
 	calleeView bool
 	bound      []string
 	letT       map[string]types.Type
+	rangeLen   string // (rangelen): the length the range loop at sc.block iterates over
 	err        string
 }
 
@@ -345,6 +346,12 @@ func (sc *specCtx) trT(x *core.Sexp) (string, types.Type) {
 		return "(< " + s + " " + n + ")", types.Typ[types.Bool]
 	case "next":
 		return g.base(sc.st, "next", "Int", 0, false), types.Typ[types.Int]
+	case "rangelen":
+		if sc.rangeLen == "" {
+			sc.fail("(rangelen) outside a range loop clause")
+			return "0", types.Typ[types.Int]
+		}
+		return sc.rangeLen, types.Typ[types.Int]
 	case "heap":
 		// (heap <base> idx...) raw access to a heap component by name
 		if len(args) < 1 || !args[0].IsAtom() {
